@@ -184,5 +184,71 @@ def gapStep (log : List Msg) (m : GapSt) : Item → GapSt
 
 def noGapOk (log : List Msg) (tr : List Item) : Bool := accepts (gapStep log) {} tr
 
+/-- `noGapOk` and, at the end of a FAIR run that was driven until nothing more can happen, everything
+    in the log from the start position has been delivered. -/
+def completeOk (log : List Msg) (tr : List Item) : Bool :=
+  let m := runR (gapStep log) {} tr.reverse
+  !m.bad && (match m.from?, m.last with
+    | some f, _ => (firstFrom log f).isNone
+    | none, some l => (succIn log l).isNone
+    | none, none => true)
+
+/-! ### Every fetched message is handed to the processor promptly
+
+A reply that carries a message at or above the offset the request asked for, arriving while the
+consumer runs (not shutting down, not halted by a processor failure, no processor result pending) makes
+the processor run in the same step; a reply that arrived while a result was pending is handled as soon
+as that result arrives. -/
+
+structure PrSt where
+  running : Bool := false
+  savedRunning : Bool := false
+  shut : Bool := false
+  savedShut : Bool := false
+  halted : Bool := false
+  savedHalted : Bool := false
+  pending : Bool := false          -- a processor result is pending
+  parked : Option Int := none      -- a reply with new messages (from this offset) waits behind it
+  offs : List (Nat × Int) := []    -- fetch requests: (id, offset asked for)
+  cancelled : List Nat := []
+  expect : Bool := false
+  bad : Bool := false
+  deriving DecidableEq, Repr
+
+instance : HasBad PrSt := ⟨PrSt.bad⟩
+
+def prStep (m : PrSt) : Item → PrSt
+  | .ev (.start _) => { m with running := true, savedRunning := m.running, halted := false, savedHalted := m.halted }
+  | .ob .raisedRestart => { m with running := m.savedRunning, halted := m.savedHalted }
+  | .ev .shutdown => { m with shut := true, savedShut := m.shut }
+  | .ob (.act .shutdown) => { m with shut := true, savedShut := m.shut }
+  | .ob .shutdownRejected => { m with shut := m.savedShut }
+  | .ob (.shutdownFired _) => { m with shut := false, running := false, parked := none, pending := false, expect := false }
+  | .ob (.stopReturned _) => { m with running := false, parked := none, pending := false, expect := false }
+  | .ob (.act .stop) => { m with expect := false }
+  | .ob (.fetch k off _) => { m with offs := (k, off) :: m.offs }
+  | .ob (.cancelReq k) => { m with cancelled := k :: m.cancelled }
+  | .ev (.fetchOk k r) =>
+    match m.offs.lookup k with
+    | some off =>
+      if r.msgs.any (fun x => decide (off ≤ x.off)) && !m.cancelled.contains k && m.running && !m.shut && !m.halted then
+        (if m.pending then { m with parked := (r.msgs.filter (fun x => decide (off ≤ x.off))).head?.map (·.off) } else { m with expect := true })
+      else m
+    | none => m
+  | .ob (.proc blk) =>
+    { m with expect := false,
+             parked := match m.parked with
+               | some po => if blk.any (fun x => decide (po ≤ x.off)) then none else some po
+               | none => none }
+  | .ob (.procRet .defer) => { m with pending := true }
+  | .ob (.procRet (.err k _)) => if k == .cancelled then m else { m with halted := true, parked := none }
+  | .ob .procCancel => { m with pending := false, parked := none }
+  | .ev .procOk => if m.parked.isSome && m.running && !m.shut && !m.halted then { m with pending := false, expect := true } else { m with pending := false }
+  | .ev (.procErr _ _) => { m with pending := false, halted := true, parked := none }
+  | .ob (.probe _ _) => if m.expect then { m with bad := true } else m
+  | _ => m
+
+def promptOk (tr : List Item) : Bool := accepts prStep {} tr
+
 end C02
 end Afkak.Monitor
